@@ -490,3 +490,36 @@ Proof.
   exists (env_of [("pa", VPArr 3 None)] []), (EIdent "pa" TPArr).
   split; [apply env_of_ok|]. vm_compute. repeat split.
 Qed.
+
+(* underef: dereference-then-index => `p[i]`.  With a non-nil pointer the two are the same for every index expression ... *)
+Theorem underef_index_preserves_nonnil en p i h n l h1 :
+  evalS en p h = Some (RVal (VPArr n (Some l)), h1) ->
+  evalS en (rw_rhs (rw_underef_index p i)) h = evalS en (rw_lhs (rw_underef_index p i)) h.
+Proof.
+  intros E. simpl. rewrite E. simpl.
+  destruct (evalS en i h1) as [[[vi|] h2]|]; simpl; auto.
+Qed.
+
+(* ... and for any pointer value (nil included: both panic, at the same history) when the index has no calls.
+   Full statement (forall i) is false in the model's strict left-to-right order: with a nil pointer the original
+   panics before an index call runs, the replacement after it (Go leaves that order to the compiler; the
+   differential oracle counts two panicking runs as equal). *)
+Theorem underef_index_preserves_partial en p i :
+  env_ok en -> typeof p = Some TPArr -> no_opaque i = true -> forall h o,
+  evalS en (rw_rhs (rw_underef_index p i)) h = Some o -> evalS en (rw_lhs (rw_underef_index p i)) h = Some o.
+Proof.
+  intros Hen Tp P h o. destruct (no_opaque_pure en i P) as [ri Hi]. simpl.
+  destruct (evalS en p h) as [[[vp|] h1]|] eqn:Ep; simpl; auto.
+  pose proof (preservation en Hen _ _ _ _ _ Tp Ep) as V.
+  rewrite !(Hi h1).
+  destruct vp as [| | | | | | |n [l|]|m]; try discriminate; destruct ri as [[[]|]|]; simpl; rewrite ?(Hi h1); simpl; auto; try discriminate.
+Qed.
+
+Theorem underef_nil_impure_index_order :
+  exists en p i, env_ok en /\ typeof p = Some TPArr /\
+    eval en (rw_lhs (rw_underef_index p i)) = Some (RPanic, []) /\
+    eval en (rw_rhs (rw_underef_index p i)) = Some (RPanic, [Ev "fi" [] (VInt 0)]).
+Proof.
+  exists (env_of [("pa", VPArr 3 None)] [("fi", fun _ => VInt 0)]), (EIdent "pa" TPArr), (ECall (FOpaque "fi" TInt) []).
+  split; [apply env_of_ok|]. vm_compute. repeat split.
+Qed.
